@@ -253,3 +253,29 @@ Section EditProofs.
   Qed.
 End EditProofs.
 
+
+(* ---- update_sizes ---- *)
+Lemma sizes_no_insertion_lemma : forall t nth ncomp cs,
+  pc_default t <= pc_max t -> nth < lth_bound t -> (cs = false \/ ncomp <= pc_default t) ->
+  sizes_opts t nth ncomp cs = Some [].
+Proof.
+  intros t nth ncomp cs Ht Hn Hc. unfold sizes_opts.
+  replace (nth <? lth_bound t) with true by lia.
+  destruct Hc as [-> | Hc]; [reflexivity|].
+  replace (pc_max t <? ncomp) with false by lia. replace (pc_default t <? ncomp) with false by lia.
+  rewrite !andb_false_r. reflexivity.
+Qed.
+
+Lemma sizes_insertion_lemma : forall t nth ncomp cs,
+  sizes_opts t nth ncomp cs = Some [] -> nth < lth_bound t /\ (cs = false \/ ncomp <= pc_default t).
+Proof.
+  intros t nth ncomp cs H. unfold sizes_opts in H.
+  destruct (cs && (pc_max t <? ncomp)); [discriminate|].
+  destruct (nth <? lth_bound t) eqn:L; [|destruct (cs && (pc_default t <? ncomp)); discriminate].
+  split; [lia|]. destruct cs; [|left; reflexivity]. cbn [andb] in H.
+  destruct (pc_default t <? ncomp) eqn:D; [discriminate|]. right. lia.
+Qed.
+
+Lemma update_sizes_not_needed : forall (A : Type) (rname : A -> text) (rid : A -> positive) (order : list text) (l : list A) (new : A),
+  update_sizes_records A rname rid order l false new = l.
+Proof. intros. unfold update_sizes_records. destruct (get_records A rname l s_SIZES 0); reflexivity. Qed.
